@@ -154,14 +154,24 @@ type c15Result struct {
 	events     string
 }
 
+var c15MapCache []base.BlockMap
+
+// c15Maps: stub block maps without items (ImportBlocks then never touches the
+// readers); only the manifest height is read. Built once, no signing.
+func c15Maps(to base.Height) []base.BlockMap {
+	for h := base.Height(len(c15MapCache)); h <= to; h++ {
+		c15MapCache = append(c15MapCache,
+			base.DummyBlockMap{M: base.NewDummyManifest(h, valuehash.NewSHA256([]byte(fmt.Sprintf("c15-%d", h))))})
+	}
+
+	return c15MapCache
+}
+
 func c15Run(from base.Height, count, limit int64, fault c15Fault) c15Result {
 	l := newC15Ledger()
 	to := from + base.Height(count) - 1
 
-	maps := map[base.Height]base.BlockMap{}
-	for h := from; h <= to; h++ {
-		maps[h] = base.NewDummyBlockMap(base.NewDummyManifest(h, valuehash.NewSHA256([]byte(fmt.Sprintf("c15-%d", h)))))
-	}
+	maps := c15Maps(to)
 
 	err := ImportBlocks(
 		context.Background(),
@@ -176,9 +186,11 @@ func c15Run(from base.Height, count, limit int64, fault c15Fault) c15Result {
 				return nil, false, errors.Errorf("c15: scripted blockmap error")
 			}
 
-			m, found := maps[height]
+			if height < from || height > to {
+				return nil, false, nil
+			}
 
-			return m, found, nil
+			return maps[height], true, nil
 		},
 		nil,
 		func(m base.BlockMap) (isaac.BlockImporter, error) {
